@@ -184,7 +184,10 @@ func HandleBulkBody(postBody []byte, ctx *fasthttp.RequestCtx, rid uint64, myid 
 			numBytes := len(line)
 			bytesReceived += numBytes
 			// update only if body is less than MAX_RECORD_SIZE
-			if numBytes < sutils.MAX_RECORD_SIZE {
+			if err := vtable.ValidateIndexName(indexName); err != nil {
+				log.Errorf("HandleBulkBody: %v", err)
+				success = false
+			} else if numBytes < sutils.MAX_RECORD_SIZE {
 				processedCount++
 				success = true
 				if strings.Contains(indexName, ".kibana") {
@@ -366,6 +369,10 @@ func ProcessIndexRequestPle(tsNow uint64, indexNameIn string, flush bool,
 	idxToStreamIdCache map[string]string, cnameCacheByteHashToStr map[uint64]string,
 	jsParsingStackbuf []byte, pleArray []*writer.ParsedLogEvent,
 ) error {
+	if err := vtable.ValidateIndexName(indexNameIn); err != nil {
+		return utils.TeeErrorf("ProcessIndexRequestPle: %v", err)
+	}
+
 	for _, ple := range pleArray {
 		if ple.GetIndexName() != indexNameIn {
 			return utils.TeeErrorf("ProcessIndexRequestPle: indexName mismatch; want %v, got %v",
